@@ -401,6 +401,35 @@ Proof.
     + exfalso. exact (Htot _ _ Hthr Hn).
 Qed.
 
+(* L8: a tile that is accepted stays accepted and is not covered by any upstream request of the loop, provided the
+   re-check of a work item that covers it sees that it is accepted *)
+Lemma loop_fresh_untouched : forall a,
+  (forall c w, In a (cover w) -> cachedb c a = Some true -> needs c w = Some true) ->
+  forall ws s acc, cachedb (s_cache s) a = Some true ->
+  exists new, s_log (final (create_loop f s acc ws)) = new ++ s_log s /\
+              (forall entry, In entry new -> ~ In a entry) /\
+              cachedb (s_cache (final (create_loop f s acc ws))) a = Some true.
+Proof.
+  intros a Hre. induction ws as [|w r IH]; intros s acc Hc; cbn [create_loop].
+  - exists []. split; [reflexivity|]. split; [intros ? [] | exact Hc].
+  - pose proof (Hspec s w) as H. destruct (f s w) as [s1 cr|s1 e].
+    + destruct H as [[-> _] | [Hn [Hlog Hcache]]].
+      * exact (IH s _ Hc).
+      * assert (Hnot : existsb (addr_eqb a) (cover w) = false).
+        { destruct (existsb (addr_eqb a) (cover w)) eqn:E; [|reflexivity]. apply existsb_addr_In in E.
+          rewrite (Hre _ _ E Hc) in Hn. discriminate. }
+        assert (Hc1 : cachedb (s_cache s1) a = Some true).
+        { destruct Hcache as [->|[_ ->]]; [exact Hc|]. rewrite <- Hc. apply is_cached_ext. apply get_store_tiles_notin. exact Hnot. }
+        destruct (IH s1 (rev cr ++ acc) Hc1) as [new [Hl [Hno Hfin]]].
+        exists (new ++ [cover w]). rewrite Hl, Hlog, <- app_assoc. split; [reflexivity|]. split; [|exact Hfin].
+        intros en He Ha. apply in_app_or in He. destruct He as [He|[<-|[]]]; [exact (Hno en He Ha)|].
+        apply existsb_addr_In in Ha. congruence.
+    + cbn [final]. destruct H as [[-> _] | [Hn [Hlog [Hcache _]]]].
+      * exists []. split; [reflexivity|]. split; [intros ? [] | exact Hc].
+      * exists [cover w]. rewrite Hlog. split; [reflexivity|]. split; [|rewrite Hcache; exact Hc].
+        intros en [<-|[]] Ha. rewrite (Hre _ _ Ha Hc) in Hn. discriminate.
+Qed.
+
 End Loop.
 End Request.
 
@@ -454,6 +483,33 @@ Lemma single_total : needs_total Q m ev addr (tm_is_cached Q m ev).
 Proof.
   intros c w Hthr H. destruct (is_cached_total Q m ev c w Hthr) as [b Hb]. congruence.
 Qed.
+
+Definition needs_v (c0 : cache) (c : cache) (a : addr) : option bool := tm_is_cached Q m ev (view m c0 c a) a.
+
+Lemma single_v_spec : forall c0, step_spec Q m ev sc addr (create_single_v Q m ev sc c0) cover1 (needs_v c0).
+Proof.
+  intros c0 s a. unfold create_single_v, needs_v. cbv zeta.
+  destruct (tm_is_cached Q m ev (view m c0 (s_cache s) a) a) as [[|]|] eqn:Hc.
+  - left. split; reflexivity.
+  - rewrite (is_stale_of_cached_false _ _ Hc). unfold next_outcome.
+    unfold new_content. destruct (sc (length (s_log s))) as [cacheable auth v| | |] eqn:Ho.
+    + destruct auth.
+      * destruct (get (view m c0 (s_cache s) a) a).
+        -- right. split; [reflexivity|]. split; [reflexivity|]. left. reflexivity.
+        -- right. split; [reflexivity|]. split; [reflexivity|].
+           destruct cacheable; [right; split; [eexists; eexists; reflexivity | reflexivity] | left; reflexivity].
+      * right. split; [reflexivity|]. split; [reflexivity|].
+        destruct cacheable; [right; split; [eexists; eexists; reflexivity | reflexivity] | left; reflexivity].
+    + destruct (get (view m c0 (s_cache s) a) a).
+      * right. split; [reflexivity|]. split; [reflexivity|]. left. reflexivity.
+      * right. split; [reflexivity|]. split; [reflexivity|]. split; [reflexivity | left; reflexivity].
+    + right. split; [reflexivity|]. split; [reflexivity|]. left. reflexivity.
+    + right. split; [reflexivity|]. split; [reflexivity|]. split; [reflexivity | right; reflexivity].
+  - left. split; reflexivity.
+Qed.
+
+Lemma view_current : forall c0 c a, recheck_uses_loaded m = false -> view m c0 c a = c.
+Proof. intros c0 c a H. unfold view. rewrite H. reflexivity. Qed.
 
 Definition coverm (mt : list addr) : list addr := mt.
 
@@ -694,6 +750,85 @@ Proof.
     + exact (loop_untouched Q m ev sc _ _ cover1 _ (single_spec Q m ev sc) _ s [] a new Hl Hnot).
 Qed.
 
+(* ---- a request that waits for its lock while another request completes ---- *)
+
+Lemma fst_result_final : forall (R : step) (g : st -> list (addr * option Z) -> list (option Z)),
+  fst (match R with Stop s' e => (s', Raised e) | Cont s' created => (s', Served (g s' created)) end) = final R.
+Proof. intros [s' cr|s' e] g; reflexivity. Qed.
+
+Lemma load_after_final : forall s0 coords other,
+  fst (load_after Q m ev sc members s0 coords other) = s0 \/
+  exists u us, uncached Q m ev (s_cache s0) coords = Some (u :: us) /\
+    fst (load_after Q m ev sc members s0 coords other) =
+    let s1 := fst (load_tile_coords Q m ev sc members s0 other) in
+    if m_meta m then final (create_loop (create_meta Q m ev sc) s1 [] (dedupe [] (map members (u :: us))))
+    else final (create_loop (create_single_v Q m ev sc (s_cache s0)) s1 [] (u :: us)).
+Proof.
+  intros s0 coords other. unfold load_after.
+  destruct (uncached Q m ev (s_cache s0) coords) as [[|u us]|]; [left; reflexivity | | left; reflexivity].
+  right. exists u, us. split; [reflexivity|]. cbv zeta.
+  destruct (m_meta m);
+    apply (fst_result_final _ (fun s' created => map (serve_after m (s_cache s0) (s_cache s') created) coords)).
+Qed.
+
+Lemma load_after_log : forall s0 coords other,
+  exists new, s_log (fst (load_after Q m ev sc members s0 coords other)) = new ++ s_log s0.
+Proof.
+  intros s0 coords other. destruct (load_after_final s0 coords other) as [->|[u [us [_ ->]]]]; [exists []; reflexivity|].
+  cbv zeta. destruct (load_tile_coords Q m ev sc members s0 other) as [s1 r1] eqn:H1.
+  destruct (request_log s0 other s1 r1 H1) as [n1 [Hl1 _]]. cbn [fst].
+  destruct (m_meta m).
+  - destruct (loop_log Q m ev sc _ _ coverm _ (meta_spec Q m ev sc) (dedupe [] (map members (u :: us))) s1 []) as [n2 [Hl2 _]].
+    exists (n2 ++ n1). rewrite Hl2, Hl1, app_assoc. reflexivity.
+  - destruct (loop_log Q m ev sc _ _ cover1 _ (single_v_spec Q m ev sc (s_cache s0)) (u :: us) s1 []) as [n2 [Hl2 _]].
+    exists (n2 ++ n1). rewrite Hl2, Hl1, app_assoc. reflexivity.
+Qed.
+
+Lemma load_after_keeps : forall s0 coords other a e,
+  get (s_cache s0) a = Some e ->
+  exists e', get (s_cache (fst (load_after Q m ev sc members s0 coords other))) a = Some e'.
+Proof.
+  intros s0 coords other a e Hg. destruct (load_after_final s0 coords other) as [->|[u [us [_ ->]]]]; [exists e; exact Hg|].
+  cbv zeta.
+  assert (H1 : exists e1, get (s_cache (fst (load_tile_coords Q m ev sc members s0 other))) a = Some e1).
+  { pose proof (request_entry_survives s0 other a e Hg) as H. cbv zeta in H.
+    destruct H as [H|[k [au [v [_ [_ H]]]]]]; eexists; exact H. }
+  destruct H1 as [e1 H1]. destruct (m_meta m).
+  - pose proof (loop_entry_survives Q m ev sc _ _ coverm _ (meta_spec Q m ev sc) (dedupe [] (map members (u :: us))) _ [] a e1 H1) as H.
+    cbv zeta in H. destruct H as [H|[k [au [v [_ [_ H]]]]]]; eexists; exact H.
+  - pose proof (loop_entry_survives Q m ev sc _ _ cover1 _ (single_v_spec Q m ev sc (s_cache s0)) (u :: us) _ [] a e1 H1) as H.
+    cbv zeta in H. destruct H as [H|[k [au [v [_ [_ H]]]]]]; eexists; exact H.
+Qed.
+
+Lemma load_after_down : forall s0 coords other,
+  (forall k au v, sc k <> UOk true au v) ->
+  s_cache (fst (load_after Q m ev sc members s0 coords other)) = s_cache s0.
+Proof.
+  intros s0 coords other Hno. destruct (load_after_final s0 coords other) as [->|[u [us [_ ->]]]]; [reflexivity|].
+  cbv zeta. pose proof (request_failed_keeps_cache s0 other (fun k au v _ => Hno k au v)) as H1.
+  destruct (m_meta m).
+  - rewrite (loop_cache_unchanged Q m ev sc _ _ coverm _ (meta_spec Q m ev sc)); [exact H1 | intros k au v _; apply Hno].
+  - rewrite (loop_cache_unchanged Q m ev sc _ _ cover1 _ (single_v_spec Q m ev sc (s_cache s0))); [exact H1 | intros k au v _; apply Hno].
+Qed.
+
+(* the re-check under the lock observes the refreshed tile (single tile path, back-ends whose re-check reads the
+   current time stamp): a requested tile that the other request left accepted is not fetched by the waiting request *)
+Lemma recheck_observes_refresh : forall s0 coords other a,
+  m_meta m = false -> recheck_uses_loaded m = false ->
+  let s1 := fst (load_tile_coords Q m ev sc members s0 other) in
+  let s' := fst (load_after Q m ev sc members s0 coords other) in
+  cachedb (s_cache s1) a = Some true ->
+  s' = s0 \/
+  exists new, s_log s' = new ++ s_log s1 /\ (forall entry, In entry new -> ~ In a entry) /\
+              cachedb (s_cache s') a = Some true.
+Proof.
+  intros s0 coords other a Hm Hre s1 s' Hc. subst s'.
+  destruct (load_after_final s0 coords other) as [->|[u [us [_ ->]]]]; [left; reflexivity|]. right.
+  cbv zeta. rewrite Hm. fold s1.
+  apply (loop_fresh_untouched Q m ev sc _ _ cover1 _ (single_v_spec Q m ev sc (s_cache s0)) a); [|exact Hc].
+  intros c w [<-|[]] Hcw. unfold needs_v. rewrite (view_current m _ _ _ Hre). exact Hcw.
+Qed.
+
 (* single-tile path, upstream down: every requested tile that exists is served with its old content *)
 Lemma single_loop_all_fail : forall ws s acc,
   (forall a, In a ws -> (exists e, get (s_cache s) a = Some e) /\ cachedb (s_cache s) a = Some false) ->
@@ -902,10 +1037,12 @@ Lemma step_event_keeps : forall w e a en,
   get (s_cache (w_st w)) a = Some en ->
   exists en', get (s_cache (w_st (fst (step_event Q sc members w e)))) a = Some en'.
 Proof.
-  intros w e a en Hg. destruct e as [coords|b|t|t|rb ex|refresh skip mains]; cbn [step_event].
+  intros w e a en Hg. destruct e as [coords|coords other|b|t|t|rb ex|refresh skip mains]; cbn [step_event].
   - pose proof (request_entry_survives Q (w_mgr w) (w_env w) sc members (w_st w) coords a en Hg) as H. cbv zeta in H.
     destruct (load_tile_coords Q (w_mgr w) (w_env w) sc members (w_st w) coords) as [s' r]. cbn [fst w_st] in *.
     destruct H as [H|[k [au [v [_ [_ H]]]]]]; eexists; exact H.
+  - destruct (load_after_keeps Q (w_mgr w) (w_env w) sc members (w_st w) coords other a en Hg) as [en' H].
+    destruct (load_after Q (w_mgr w) (w_env w) sc members (w_st w) coords other) as [s' r]. exists en'. exact H.
   - exists en. exact Hg.
   - exists en. exact Hg.
   - exists en. exact Hg.
@@ -919,9 +1056,11 @@ Qed.
 Lemma step_event_log : forall w e,
   exists new, s_log (w_st (fst (step_event Q sc members w e))) = new ++ s_log (w_st w).
 Proof.
-  intros w e. destruct e as [coords|b|t|t|rb ex|refresh skip mains]; cbn [step_event]; try (exists []; reflexivity).
+  intros w e. destruct e as [coords|coords other|b|t|t|rb ex|refresh skip mains]; cbn [step_event]; try (exists []; reflexivity).
   - destruct (load_tile_coords Q (w_mgr w) (w_env w) sc members (w_st w) coords) as [s' r] eqn:H.
     destruct (request_log Q (w_mgr w) (w_env w) sc members _ _ _ _ H) as [new [Hl _]]. exists new. exact Hl.
+  - destruct (load_after_log Q (w_mgr w) (w_env w) sc members (w_st w) coords other) as [new H].
+    destruct (load_after Q (w_mgr w) (w_env w) sc members (w_st w) coords other) as [s' r]. exists new. exact H.
   - match goal with |- context [seed_walk Q ?m' ?ev' sc members ?s0 skip mains] =>
       destruct (seed_walk_log mains m' ev' s0 skip) as [new H];
       destruct (seed_walk Q m' ev' sc members s0 skip mains) as [[s2 h] ok] end.
@@ -955,9 +1094,11 @@ Lemma history_upstream_down : forall es w,
 Proof.
   induction es as [|e r IH]; intros w Hno; cbn [run]; [reflexivity|].
   assert (H1 : s_cache (w_st (fst (step_event Q sc members w e))) = s_cache (w_st w)).
-  { destruct e as [coords|b|t|t|rb ex|refresh skip mains]; cbn [step_event]; try reflexivity.
+  { destruct e as [coords|coords other|b|t|t|rb ex|refresh skip mains]; cbn [step_event]; try reflexivity.
     - pose proof (request_failed_keeps_cache Q (w_mgr w) (w_env w) sc members (w_st w) coords (fun k au v _ => Hno k au v)) as H.
       destruct (load_tile_coords Q (w_mgr w) (w_env w) sc members (w_st w) coords) as [s' r']. exact H.
+    - pose proof (load_after_down Q (w_mgr w) (w_env w) sc members (w_st w) coords other Hno) as H.
+      destruct (load_after Q (w_mgr w) (w_env w) sc members (w_st w) coords other) as [s' r']. exact H.
     - match goal with |- context [seed_walk Q ?m' ?ev' sc members ?s0 skip mains] =>
         pose proof (seed_walk_down mains m' ev' s0 skip Hno) as H;
         destruct (seed_walk Q m' ev' sc members s0 skip mains) as [[s2 h] ok] end.
@@ -1283,3 +1424,43 @@ Proof. vm_compute. reflexivity. Qed.
 Example ex_broken_body :
   load_tile_coords Ex.q Ex.m_rel Ex.ev (fun _ => UBroken) Ex.single Ex.s0 [Ex.a0] = (mkSt Ex.c [[Ex.a0]], Raised EBody).
 Proof. vm_compute. reflexivity. Qed.
+
+(* ---- waiting for the lock: witnesses ---------------------------------------------------------------- *)
+
+(* file cache: request B for the stale tile a0 waits while request A refreshes it; B's re-check sees the new time
+   stamp: one upstream request in total, B serves the refreshed image (the loaded source is the file name) *)
+Example ex_race_file :
+  load_after Ex.q Ex.m_rel Ex.ev Ex.all_ok Ex.single Ex.s0 [Ex.a0] [Ex.a0] =
+  (mkSt ((Ex.a0, mkEntry 0 4000000040) :: Ex.c) [[Ex.a0]], Served [Some 0]).
+Proof. vm_compute. reflexivity. Qed.
+
+(* finding C13-sqlite-recheck: with a back-end whose re-check uses the time stamp loaded before the wait, the tile
+   that request A left accepted is fetched again by the waiting request *)
+Lemma recheck_uses_loaded_refetches_refuted :
+  exists Q m ev sc members s0 coords other a,
+    m_meta m = false /\ recheck_uses_loaded m = true /\
+    let s1 := fst (load_tile_coords Q m ev sc members s0 other) in
+    let s' := fst (load_after Q m ev sc members s0 coords other) in
+    tm_is_cached Q m ev (s_cache s1) a = Some true /\
+    s_log s' = [a] :: s_log s1.
+Proof.
+  exists Ex.q, (mkMgr (Some (mkRconf None false 0 0 0 0 8)) None false true 0 false), Ex.ev, Ex.all_ok, Ex.single,
+         (mkSt [(Ex.a0, mkEntry 100 4000000028)] []), [Ex.a0], [Ex.a0], Ex.a0.
+  vm_compute. repeat split; reflexivity.
+Qed.
+
+(* seed tasks that share a TileManager: each walk runs under the threshold of its own task, whatever an earlier
+   task left in _expire_timestamp (the cache's own refresh_before, if any, still wins) *)
+Lemma seed_task_own_threshold : forall Q sc members w t skip mains w' o,
+  m_refresh_before (w_mgr w) = None ->
+  step_event Q sc members w (ESeed (Some t) skip mains) = (w', o) ->
+  expire_timestamp Q (w_mgr w') (w_env w') = ThrAt t /\
+  exists handed ok, o = OSeed handed ok /\
+    seed_walk Q (mkMgr None (Some t) (m_meta (w_mgr w)) (m_floor_store (w_mgr w)) (m_filter (w_mgr w)) (m_link (w_mgr w)))
+              (w_env w) sc members (w_st w) skip mains = (w_st w', handed, ok).
+Proof.
+  intros Q sc members w t skip mains w' o Hrb H. cbn [step_event] in H. rewrite Hrb in H.
+  destruct (seed_walk Q (mkMgr None (Some t) (m_meta (w_mgr w)) (m_floor_store (w_mgr w)) (m_filter (w_mgr w)) (m_link (w_mgr w)))
+                      (w_env w) sc members (w_st w) skip mains) as [[s' handed] ok] eqn:Hw.
+  inversion H; subst. cbn [w_mgr w_env w_st]. split; [reflexivity|]. exists handed, ok. split; reflexivity.
+Qed.
